@@ -100,6 +100,10 @@ class Report(object):
         from .srcmodel import AnalysisError
         short = [(rid, self.rules[rid]) for rid in self.order if self.rules[rid].instances < self.rules[rid].min_instances]
         if short and not any(i['verdict'] == 'violation' for i in self.instances):
+            if self.undecided_list:
+                u = self.undecided_list[0]          # the more informative reason: the instances exist but could not be decided
+                raise AnalysisError('%d instance(s) could not be decided, first: %s %s (%s): %s'
+                                    % (len(self.undecided_list), u['rule'], u['construct'], u['config'], u['reason']))
             rid, r = short[0]
             raise AnalysisError('rule %s matched %d instances, expected at least %d (anchor vanished?)'
                                 % (rid, r.instances, r.min_instances))
